@@ -4,7 +4,9 @@ use std::panic::{self, AssertUnwindSafe};
 /// Install a panic hook that prints nothing (RUST_BACKTRACE is set in this environment and
 /// the engines provoke thousands of expected panics).
 pub fn silence_panics() {
-    panic::set_hook(Box::new(|_| {}));
+    if std::env::var_os("VERIF_LOUD").is_none() {
+        panic::set_hook(Box::new(|_| {}));
+    }
 }
 
 /// Runs `f`, returns Err(message) if it panicked.
